@@ -55,6 +55,7 @@ def rq_spec(vc, u, v, theta, d):
 
 
 def _kernel_contract(vc, clsname, spec, n_extra):
+    vc.c.numeric_filter = True       # no equational hypotheses between uninterpreted terms in these contracts
     d = vc.choice("d", [1, 2, 3])
     n, m = vc.int("n", lo=1), vc.int("m", lo=1)
     x = _points(vc, "x", n, d)
@@ -160,6 +161,7 @@ def slice_builder(vc):
 @contract("C10", "composite", native=False)
 def composite(vc):
     """a sum of kernels: value, gradients, labels and bounds are those of the components concatenated in order"""
+    vc.c.numeric_filter = True
     cfg = vc.choice("components", [["SquaredExponential", "WhiteNoise"], ["WhiteNoise", "RationalQuadratic"],
                                    ["SquaredExponential", "RationalQuadratic", "WhiteNoise"]])
     d = 1
@@ -235,6 +237,7 @@ def change_point(vc):
     """change-point combination of 2, 3 or 4 squared-exponential kernels (proved per listed number of kernels).
     The logistic weights are modular here (their contract is change_point_logistic): W_t(a) with partial
     derivatives dW_t,0(a) (location) and dW_t,1(a) (width)."""
+    vc.c.numeric_filter = True
     nk = vc.choice("n_kernels", [2, 3, 4])
     d = 1
     n = vc.int("n", lo=1)
